@@ -19,6 +19,8 @@ pub struct WorkerOutcome {
     pub last_mark: Option<String>,
     pub stderr_tail: String,
     pub hung: bool,
+    /// libFuzzer's own summary lines (`stat::…`, `DONE`), kept apart from the tail
+    pub notable: Vec<String>,
 }
 
 /// Run a child of this executable; collects stdout's RESULT line, the last MARK
@@ -26,8 +28,13 @@ pub struct WorkerOutcome {
 /// new mark arrives for that long (None: only the overall limit applies).
 pub fn run_child(args: &[String], overall: Duration, mark_timeout: Option<Duration>) -> WorkerOutcome {
     let exe = std::env::current_exe().expect("current_exe");
+    run_exe(&exe.to_string_lossy(), args, &[], overall, mark_timeout)
+}
+
+pub fn run_exe(exe: &str, args: &[String], env: &[(String, String)], overall: Duration, mark_timeout: Option<Duration>) -> WorkerOutcome {
     let mut child = Command::new(exe)
         .args(args)
+        .envs(env.iter().map(|(k, v)| (k.clone(), v.clone())))
         .stdin(Stdio::null())
         .stdout(Stdio::piped())
         .stderr(Stdio::piped())
@@ -37,6 +44,8 @@ pub fn run_child(args: &[String], overall: Duration, mark_timeout: Option<Durati
     let stderr = child.stderr.take().unwrap();
     let last_mark: Arc<Mutex<(Option<String>, Instant)>> = Arc::new(Mutex::new((None, Instant::now())));
     let tail: Arc<Mutex<Vec<String>>> = Arc::new(Mutex::new(vec![]));
+    let notable: Arc<Mutex<Vec<String>>> = Arc::new(Mutex::new(vec![]));
+    let nb = notable.clone();
     let lm = last_mark.clone();
     let tl = tail.clone();
     let t_err = std::thread::spawn(move || {
@@ -48,6 +57,12 @@ pub fn run_child(args: &[String], overall: Duration, mark_timeout: Option<Durati
                 g.0 = Some(m.to_string());
                 g.1 = Instant::now();
             } else {
+                if line.starts_with("stat::") || line.contains("DONE") {
+                    let mut n = nb.lock().unwrap();
+                    if n.len() < 16 {
+                        n.push(line.clone());
+                    }
+                }
                 let mut t = tl.lock().unwrap();
                 t.push(line);
                 if t.len() > 40 {
@@ -106,6 +121,7 @@ pub fn run_child(args: &[String], overall: Duration, mark_timeout: Option<Durati
         last_mark: mark,
         stderr_tail,
         hung,
+        notable: notable.lock().map(|n| n.clone()).unwrap_or_default(),
     }
 }
 
@@ -158,6 +174,225 @@ pub fn confirm_case(prop: &str, case: &Value, limit: Duration) -> Confirm {
         };
     }
     Confirm::HarnessError(format!("replay child exit={:?}: {}", o.exit, o.stderr_tail))
+}
+
+
+/// Merge worker outcomes; a worker that died or was killed is attributed to its last announced
+/// case, which is confirmed alone before anything is reported.
+#[allow(clippy::too_many_arguments)]
+fn absorb(
+    prop: &dyn Property,
+    tier: Tier,
+    seed: u64,
+    outcomes: &[WorkerOutcome],
+    who: &str,
+    stats: &mut Stats,
+    violations: &mut Vec<Failure>,
+    inconclusive: &mut Vec<String>,
+) {
+    let id = prop.id();
+    for (i, o) in outcomes.iter().enumerate() {
+        if let Some(r) = &o.result {
+            stats.merge_json(&r["stats"]);
+            if let Some(a) = r["failures"].as_array() {
+                for f in a {
+                    violations.push(Failure::from_json(f));
+                }
+            }
+            if let Some(a) = r["inconclusive"].as_array() {
+                for s in a {
+                    inconclusive.push(s.as_str().unwrap_or("").to_string());
+                }
+            }
+            continue;
+        }
+        // No result: the worker died or was killed.
+        let Some(mark) = o.last_mark.as_ref().and_then(|m| serde_json::from_str::<Value>(m).ok()) else {
+            inconclusive.push(format!(
+                "{} {} ended without result (exit={:?} signal={:?} hung={}): {}",
+                who,
+                i,
+                o.exit,
+                o.signal,
+                o.hung,
+                clip(&o.stderr_tail, 600)
+            ));
+            continue;
+        };
+        // Confirm the marked case alone, with a 10x limit.
+        let limit = Duration::from_secs(prop.case_limit_s() * 10);
+        let mut ctx = Ctx::new(id, tier, seed, 0, 1);
+        match confirm_case(id, &mark, limit) {
+            Confirm::Crashed { signal, stderr, .. } => {
+                let f = prop.describe_crash(&mark, signal, &stderr);
+                match ctx.judge(f) {
+                    Ok(()) => {
+                        stats.merge_json(&ctx.stats.to_json());
+                        inconclusive.push(format!(
+                            "{} {} was taken down by a known finding before finishing its share; re-run after excluding it by construction",
+                            who, i
+                        ));
+                    }
+                    Err(f) => violations.push(f),
+                }
+            }
+            Confirm::Hung => {
+                if prop.liveness() {
+                    let f = Failure::new("case does not terminate (reproduced alone with 10x limit)", mark.clone())
+                        .sig("kind", "hang");
+                    match ctx.judge(f) {
+                        Ok(()) => stats.merge_json(&ctx.stats.to_json()),
+                        Err(f) => violations.push(f),
+                    }
+                } else {
+                    inconclusive.push(format!("case timed out twice: {}", clip(&mark.to_string(), 300)));
+                }
+            }
+            Confirm::Failed(f) => match ctx.judge(f) {
+                Ok(()) => stats.merge_json(&ctx.stats.to_json()),
+                Err(f) => violations.push(f),
+            },
+            Confirm::Passed if who == "fuzz worker" && (o.hung || o.exit == Some(70)) => stats.notes.push(format!(
+                "fuzz worker {} stopped early: libFuzzer's per-input time limit hit on an input that passes alone (slow, not stuck); its remaining share was not explored",
+                i
+            )),
+            Confirm::Passed => inconclusive.push(format!(
+                "{} {} died (exit={:?} signal={:?} hung={}) but its last case passes alone: {}",
+                who,
+                i,
+                o.exit,
+                o.signal,
+                o.hung,
+                clip(&o.stderr_tail, 400)
+            )),
+            Confirm::HarnessError(e) => inconclusive.push(e),
+        }
+    }
+
+}
+
+pub fn fuzz_bin() -> String {
+    std::env::var("VERIF_FUZZ_BIN").unwrap_or_else(|_| format!("{}/target/fuzz/x86_64-unknown-linux-gnu/release/stream", crate::verif_root()))
+}
+
+fn hex(b: &[u8]) -> String {
+    b.iter().map(|x| format!("{:02x}", x)).collect()
+}
+
+/// Coverage-guided stage: one libFuzzer process per core, each with its own seed and its own
+/// fresh corpus (seeded with full-length pseudo-random streams so that long programs are there
+/// from the start); the process is an ordinary worker as far as results are concerned.
+#[allow(clippy::too_many_arguments)]
+fn fuzz_stage(
+    prop: &dyn Property,
+    tier: Tier,
+    seed: u64,
+    nworkers: usize,
+    spec: &crate::FuzzSpec,
+    stats: &mut Stats,
+    violations: &mut Vec<Failure>,
+    inconclusive: &mut Vec<String>,
+) {
+    let id = prop.id();
+    let bin = fuzz_bin();
+    if !std::path::Path::new(&bin).exists() {
+        stats.notes.push(format!("coverage-guided stage not run: {} is not built (./check builds it for the thorough tier; see its output)", bin));
+        return;
+    }
+    let runs: u64 = std::env::var("VERIF_FUZZ_RUNS").ok().and_then(|s| s.parse().ok()).unwrap_or(if tier == Tier::Thorough { spec.runs } else { (spec.runs / 20).max(50) });
+    let overall = Duration::from_secs(prop.overall_limit_s(tier));
+    let root = format!("{}/target/fuzz-work", crate::verif_root());
+    let mut handles = vec![];
+    let mut dirs = vec![];
+    for w in 0..nworkers {
+        let dir = format!("{}/{}-{}", root, id, w);
+        let _ = std::fs::remove_dir_all(&dir);
+        let corpus = format!("{}/corpus", dir);
+        let _ = std::fs::create_dir_all(&corpus);
+        // seed corpus: streams of every length class, a pure function of (seed, worker)
+        for k in 0..24u64 {
+            let len = match k % 4 {
+                0 => spec.max_len,
+                1 => spec.max_len / 2,
+                2 => spec.max_len / 4,
+                _ => 16,
+            };
+            let mut bytes = Vec::with_capacity(len);
+            let mut x = mix64(seed ^ mix64((w as u64) << 32 | k));
+            for i in 0..len {
+                if i % 8 == 0 {
+                    x = mix64(x);
+                }
+                bytes.push((x >> ((i % 8) * 8)) as u8);
+            }
+            let _ = std::fs::write(format!("{}/seed-{:02}", corpus, k), bytes);
+        }
+        let fseed = (mix64(seed ^ 0xF0 ^ ((w as u64) << 8)) % 0x7fff_fffe) + 1;
+        let args: Vec<String> = vec![
+            format!("-runs={}", runs),
+            format!("-seed={}", fseed),
+            format!("-max_len={}", spec.max_len),
+            "-len_control=0".into(),
+            format!("-timeout={}", prop.case_limit_s().max(5) * 6),
+            format!("-max_total_time={}", overall.as_secs().min(3600)),
+            format!("-artifact_prefix={}/", dir),
+            "-print_final_stats=1".into(),
+            "-rss_limit_mb=8192".into(),
+            corpus,
+        ];
+        let env: Vec<(String, String)> = vec![
+            ("VERIF_FUZZ_PROP".into(), id.to_string()),
+            ("VERIF_FUZZ_LABEL".into(), spec.label.to_string()),
+            ("VERIF_SEED".into(), seed.to_string()),
+            ("VERIF_FUZZ_SHARD".into(), w.to_string()),
+            ("VERIF_ROOT".into(), crate::verif_root()),
+        ];
+        let bin = bin.clone();
+        dirs.push(dir);
+        handles.push(std::thread::spawn(move || run_exe(&bin, &args, &env, overall, None)));
+    }
+    let mut outcomes: Vec<WorkerOutcome> = handles.into_iter().map(|h| h.join().unwrap()).collect();
+    let mut execs = 0u64;
+    let mut cov = vec![];
+    for (o, dir) in outcomes.iter_mut().zip(&dirs) {
+        for l in &o.notable {
+            if let Some(n) = l.strip_prefix("stat::number_of_executed_units:") {
+                execs += n.trim().parse::<u64>().unwrap_or(0);
+            }
+            if l.contains("DONE") {
+                if let Some(i) = l.find("cov:") {
+                    cov.push(l[i..].split_whitespace().take(4).collect::<Vec<_>>().join(" "));
+                }
+            }
+        }
+        if o.result.is_none() {
+            // the process died in a case: libFuzzer saved the stream it was running
+            if let Ok(rd) = std::fs::read_dir(dir) {
+                for e in rd.filter_map(|e| e.ok()) {
+                    let name = e.file_name().to_string_lossy().to_string();
+                    if name.starts_with("crash-") || name.starts_with("timeout-") || name.starts_with("oom-") {
+                        if let Ok(bytes) = std::fs::read(e.path()) {
+                            o.last_mark = Some(json!({"fuzz_stream": hex(&bytes), "label": spec.label}).to_string());
+                            if name.starts_with("timeout-") {
+                                o.hung = true;
+                            }
+                        }
+                    }
+                }
+            }
+        }
+    }
+    stats.notes.push(format!(
+        "coverage-guided stage: {} libFuzzer processes x -runs={} on `{}` (max_len {}), {} executions; final coverage per process: {}",
+        nworkers,
+        runs,
+        spec.label,
+        spec.max_len,
+        execs,
+        clip(&cov.join(" | "), 600)
+    ));
+    absorb(prop, tier, seed, &outcomes, "fuzz worker", stats, violations, inconclusive);
+    let _ = std::fs::remove_dir_all(&root);
 }
 
 pub fn check(prop: &dyn Property, tier: Tier, seed: u64) -> i32 {
@@ -222,7 +457,9 @@ pub fn check(prop: &dyn Property, tier: Tier, seed: u64) -> i32 {
         None
     };
     let mut handles = vec![];
-    for shard in 0..nshards {
+    // VERIF_FUZZ_ONLY=1 (triage): skip the ordinary workers, run only the coverage-guided stage
+    let fuzz_only = std::env::var("VERIF_FUZZ_ONLY").map(|v| v == "1").unwrap_or(false) && prop.fuzz().is_some();
+    for shard in 0..(if fuzz_only { 0 } else { nshards }) {
         let args: Vec<String> = vec![
             "shard".into(),
             id.into(),
@@ -238,75 +475,12 @@ pub fn check(prop: &dyn Property, tier: Tier, seed: u64) -> i32 {
         handles.push(std::thread::spawn(move || run_child(&args, overall, mark_timeout)));
     }
     let outcomes: Vec<WorkerOutcome> = handles.into_iter().map(|h| h.join().unwrap()).collect();
-    for (i, o) in outcomes.iter().enumerate() {
-        if let Some(r) = &o.result {
-            stats.merge_json(&r["stats"]);
-            if let Some(a) = r["failures"].as_array() {
-                for f in a {
-                    violations.push(Failure::from_json(f));
-                }
-            }
-            if let Some(a) = r["inconclusive"].as_array() {
-                for s in a {
-                    inconclusive.push(s.as_str().unwrap_or("").to_string());
-                }
-            }
-            continue;
-        }
-        // No result: the worker died or was killed.
-        let Some(mark) = o.last_mark.as_ref().and_then(|m| serde_json::from_str::<Value>(m).ok()) else {
-            inconclusive.push(format!(
-                "worker {} ended without result (exit={:?} signal={:?} hung={}): {}",
-                i,
-                o.exit,
-                o.signal,
-                o.hung,
-                clip(&o.stderr_tail, 600)
-            ));
-            continue;
-        };
-        // Confirm the marked case alone, with a 10x limit.
-        let limit = Duration::from_secs(prop.case_limit_s() * 10);
-        let mut ctx = Ctx::new(id, tier, seed, 0, 1);
-        match confirm_case(id, &mark, limit) {
-            Confirm::Crashed { signal, stderr, .. } => {
-                let f = prop.describe_crash(&mark, signal, &stderr);
-                match ctx.judge(f) {
-                    Ok(()) => {
-                        stats.merge_json(&ctx.stats.to_json());
-                        inconclusive.push(format!(
-                            "worker {} was taken down by a known finding before finishing its share; re-run after excluding it by construction",
-                            i
-                        ));
-                    }
-                    Err(f) => violations.push(f),
-                }
-            }
-            Confirm::Hung => {
-                if prop.liveness() {
-                    let f = Failure::new("case does not terminate (reproduced alone with 10x limit)", mark.clone())
-                        .sig("kind", "hang");
-                    match ctx.judge(f) {
-                        Ok(()) => stats.merge_json(&ctx.stats.to_json()),
-                        Err(f) => violations.push(f),
-                    }
-                } else {
-                    inconclusive.push(format!("case timed out twice: {}", clip(&mark.to_string(), 300)));
-                }
-            }
-            Confirm::Failed(f) => match ctx.judge(f) {
-                Ok(()) => stats.merge_json(&ctx.stats.to_json()),
-                Err(f) => violations.push(f),
-            },
-            Confirm::Passed => inconclusive.push(format!(
-                "worker {} died (exit={:?} signal={:?} hung={}) but its last case passes alone: {}",
-                i,
-                o.exit,
-                o.signal,
-                o.hung,
-                clip(&o.stderr_tail, 400)
-            )),
-            Confirm::HarnessError(e) => inconclusive.push(e),
+    absorb(prop, tier, seed, &outcomes, "worker", &mut stats, &mut violations, &mut inconclusive);
+
+    // 2b. coverage-guided stage (thorough tier): libFuzzer drives the same choice-stream closure.
+    if let Some(spec) = prop.fuzz() {
+        if tier == Tier::Thorough || fuzz_only || std::env::var("VERIF_FUZZ").map(|v| v == "1").unwrap_or(false) {
+            fuzz_stage(prop, tier, seed, nshards, &spec, &mut stats, &mut violations, &mut inconclusive);
         }
     }
 
@@ -461,9 +635,22 @@ pub fn replay(prop: &dyn Property, path: &str, raw: bool) -> i32 {
     };
     let mut ctx = Ctx::new(prop.id(), Tier::Quick, 0, 0, 1);
     ctx.strict = true;
-    let r = prop.replay(&mut ctx, &v["case"]);
-    if let Err(f) = r {
-        ctx.failures.push(f);
+    if let Some(h) = v["case"].get("fuzz_stream").and_then(|h| h.as_str()) {
+        // a choice stream saved by the coverage-guided stage: run the property's own closure on it
+        let bytes: Vec<u8> = (0..h.len() / 2).filter_map(|i| u8::from_str_radix(&h[2 * i..2 * i + 2], 16).ok()).collect();
+        let (tx_in, rx_in) = std::sync::mpsc::channel();
+        let (tx_v, _rx_v) = std::sync::mpsc::channel();
+        let _ = tx_in.send(Some(bytes));
+        let _ = tx_in.send(None);
+        ctx.marks = false;
+        ctx.shrink_budget_s = 0;
+        ctx.fuzz = Some(super::fuzzlink::FuzzLink { label: v["case"]["label"].as_str().unwrap_or("").to_string(), rx: rx_in, tx: tx_v });
+        prop.run(&mut ctx);
+    } else {
+        let r = prop.replay(&mut ctx, &v["case"]);
+        if let Err(f) = r {
+            ctx.failures.push(f);
+        }
     }
     if raw {
         println!("RESULT {}", ctx.result_json());
